@@ -26,7 +26,8 @@ META = {
         "CPython `re` implements literal/`.*` matching for escaped patterns (compared with the model's matchers on every run)",
         "argparse; the harness's own reading of a CSV option (split at ',', first occurrence kept, last option wins) is "
         "compared with cli.parse_args on every run",
-        "log lines `running codemod <id>` and CodeTF `results[].codemod` are taken as the sequence of executed codemods",
+        "the sequence of executed codemods is the sequence of calls of BaseCodemod._apply recorded by a wrapper installed from the harness; "
+        "CodeTF `results[].codemod` must equal it (violation otherwise); the `running codemod <id>` log lines are only cross-checked (mismatch)",
     ],
     "assumptions": [
         "registry rows are (id, origin); ids pairwise different (dict keys) and without line feed (wf_reg)",
@@ -473,6 +474,22 @@ def run_argparse(ctx):
                              f"parse_args({argv}) accepted both options: {got}", {"argv": argv, "observed": got, "expected": exp})
 
 
+# installed in the child from the harness: records the id of every codemod whose _apply is entered, in order
+PRELOAD_TRACE = """
+try:
+    import codemodder.codemods.base_codemod as _bc
+    _verif_orig_apply = _bc.BaseCodemod._apply
+    def _verif_apply(self, *a, **k):
+        with open(%r, "a") as _f:
+            _f.write(self.id + "\\n")
+        return _verif_orig_apply(self, *a, **k)
+    _bc.BaseCodemod._apply = _verif_apply
+    open(%r, "a").close()
+except Exception:
+    open(%r, "a").write("@@WRAP_FAILED@@\\n")
+"""
+
+
 TINY = {"a.py": "x = set([1, 2])\nif x == []:\n    pass\nprint(f'plain')\n"}
 
 
@@ -532,15 +549,17 @@ def run_e2e(ctx):
             argv += ["--codemod-exclude", v]
         for d, vals in tool:
             argv += [OPT[d], ",".join(vals)]
-        r = core.run_cli(argv, cwd=str(ctx.scratch), hashseed=str(idx % 3))
+        trace = ctx.scratch / f"e2e_trace_{idx}.txt"
+        r = core.run_cli(argv, cwd=str(ctx.scratch), hashseed=str(idx % 3), preload=PRELOAD_TRACE % (str(trace), str(trace), str(trace)))
         lines = re.findall(r"^running codemod (\S+)\s*$", r["stdout"], flags=re.M)
+        executed = trace.read_text().split("\n")[:-1] if trace.exists() else None
         rep = None
         if out.exists():
             try:
                 rep = [x["codemod"] for x in json.loads(out.read_text())["results"]]
             except Exception as e:
                 rep = f"unreadable report: {e}"
-        return label, {"include_values": inc, "exclude_values": exc, "tool_options": [d for d, _ in tool]}, r, lines, rep, \
+        return label, {"include_values": inc, "exclude_values": exc, "tool_options": [d for d, _ in tool]}, r, (lines, executed), rep, \
             expected_csv(inc), expected_csv(exc), tool
 
     with ThreadPoolExecutor(max_workers=min(12, core.NCPU)) as ex:
@@ -548,15 +567,28 @@ def run_e2e(ctx):
     ctx.cli_runs += len(results)
     pool = RegPool()
     cases, meta = [], []
-    for label, argv, r, lines, rep, incl, excl, tool in results:
+    for label, argv, r, (log_lines, executed), rep, incl, excl, tool in results:
         ctx.count("e2e:" + label.split(":")[0])
         short = argv
         if r["rc"] != 0:
-            ctx.violation("kf_select_e2e_exit", f"[{label}] CLI exited {r['rc']}: {r['stderr'][-300:]}", {"argv": short, "rc": r["rc"]})
+            # the exit status is C20's subject; here a run that did not complete is lost coverage
+            ctx.mismatch("end-to-end CLI run did not complete", f"[{label}] CLI exited {r['rc']}: {r['stderr'][-300:]}", {"argv": short, "rc": r["rc"]})
             continue
+        # the executed sequence is observed structurally: the harness wraps BaseCodemod._apply in the child and records
+        # the id of every codemod applied, in order.  Log text is only cross-checked (its wording is not behaviour).
+        if executed is None or executed == ["@@WRAP_FAILED@@"]:
+            ctx.mismatch("harness wrapper around BaseCodemod._apply could not be installed",
+                         f"[{label}] falling back to results[].codemod of the report", {"argv": short})
+            lines = rep if isinstance(rep, list) else log_lines
+        else:
+            lines = executed
+            if log_lines != executed:
+                ctx.mismatch("`running codemod <id>` log lines vs the recorded calls of BaseCodemod._apply",
+                             f"[{label}] log lines {log_lines[:6]} but applied {executed[:6]} (log wording changed?)",
+                             {"argv": short, "log_lines": log_lines, "applied": executed})
         if rep != lines:
-            ctx.violation("kf_select_report_differs_from_log", f"[{label}] `running codemod` lines {lines} but results[].codemod {rep}",
-                          {"argv": short, "lines": lines, "report": rep})
+            ctx.violation("kf_select_report_differs_from_run", f"[{label}] codemods applied {lines} but results[].codemod of the report {rep}",
+                          {"argv": short, "applied": lines, "report": rep})
         cases.append(cpair(pool.name(rows), c_strs(incl), c_strs(excl), c_args(tool), c_strs(lines)))
         meta.append((label, short, lines, incl, excl, tool))
         ctx.case({"e2e": label, "ran": lines}, nontrivial_key=("e2e", json.dumps(argv)) if lines else None, sample=True)
